@@ -25,6 +25,15 @@ C integer semantics (host: LP64, gcc, two's complement), made explicit in the ou
   * helper meanings (`u32`, `s64`, `band`, `sbor`, `subLoop`, ...) are in lean/Pixman/Lemmas/CSem.lean.
 A function with `assert`s gets a companion `<name>_ok : Bool` (all assertions reached hold).
 
+Wave 2 additions: mode "mixed" (unsigned C types are Lean `Nat`, signed ones `Int`; conversions between them are
+`Int.ofNat` / `Int.toNat (uN ..)`); `switch` (desugared to an if-chain; fall-through duplicates the following case;
+`if (c) break;` inside a case becomes `if (c) {} else {rest}`); memory operands given as access paths
+(`image->common.transform->matrix[2][0]`) whose C type is resolved through the struct/union definitions of the
+preprocessed text and must equal the type declared in TARGETS ("ptr": only NULL tests; "bool": an uninterpreted 0/1
+sub-expression such as a `double` comparison; `name@i`: indexed by the variable of a search loop); local pointer
+aliases (`T (*t)[3] = path;`); search loops `for (i = 0; i < n; ++i) if (C(i)) { S; break; }` (= `if (anyBelow n C) S`);
+`stages`: every if/switch join becomes its own definition `<name>_sN`, so that bridges can be proved join by join.
+
 Fail closed: a directive, type, token, statement or expression form that is not understood, a
 target that is not found, a variable read before it is assigned -- all exit non-zero (the engine
 reports a broken extraction obligation)."""
